@@ -376,7 +376,7 @@ Proof. reflexivity. Qed.
 Lemma set_condition_unfold status ty cond :
   set_condition status ty cond =
   match alookup "conditions" (obj_or_nil status) with
-  | None | Some JNull => Some (JObj (aset "conditions" (JArr [cond]) (obj_or_nil status)))
+  | None => Some (JObj (aset "conditions" (JArr [cond]) (obj_or_nil status)))
   | Some (JArr l) =>
       if existsb (is_cond ty) l
       then Some (JObj (aset "conditions" (JArr (repl_first ty cond l false)) (obj_or_nil status)))
@@ -469,7 +469,6 @@ Proof.
   intros Hc Hs. rewrite set_condition_unfold in Hs. rewrite status_condition_wrap.
   set (m := obj_or_nil status) in *.
   destruct (alookup "conditions" m) as [[| | | | | |l|m']|] eqn:El; try discriminate.
-  - inversion Hs. rewrite alookup_aset_same. cbn [find]. now rewrite Hc.
   - destruct (existsb (is_cond ty) l) eqn:Ex; inversion Hs; rewrite alookup_aset_same.
     + now apply find_repl_first_same.
     + now apply find_app_last.
@@ -494,7 +493,6 @@ Proof.
     try (now apply (Hnil JNull)).
   cbn [obj_or_nil] in Hs.
   destruct (alookup "conditions" m) as [[| | | | | |l|m']|] eqn:El; try discriminate.
-  - inversion Hs. rewrite alookup_aset_same. cbn [find]. now rewrite Hc'.
   - destruct (existsb (is_cond ty) l) eqn:Ex; inversion Hs; rewrite alookup_aset_same.
     + now apply find_repl_first_other.
     + now apply find_app_miss.
